@@ -1,6 +1,6 @@
 (* C15 command table: a stateful world; every command answers with the canonical state of the whole world.
    reset | create L | adduid K ISUID CID INFO PRIM T | recert K ISUID CID INFO PRIM T | certify BY K ISUID CID EXP T | certkey BY K EXP T
-   | revuid K ISUID CID T | attest K ISUID CID T | addsub K L CANSIGN FLAGS T | revsub K L T | revkey K T | revoker K BY T | deluid K CID
+   | revuid K ISUID CID T | attest K ISUID CID T | addsub K L CANSIGN FLAGS T | adopt K OTHER T (add_subkey of an existing key object that has identities) | revsub K L T | revkey K T | revoker K BY T | deluid K CID
    | protect K | unlock K | lock K | copy K | reimport K | publish K | state | old <command ...> (step before repair d951222)
    | state_old (the current world read through the PGPUID.selfsig rule before repair 812bc0f: newest signature of any type by the key)
    INFO = comma separated integers ("-" = empty), EXP = n|0|1 *)
@@ -40,6 +40,7 @@ let op_of = function
   | ["revuid"; k; isu; c; t] -> ORevokeUid (ni k, bo isu, [zi c], zi t)
   | ["attest"; k; isu; c; t] -> OAttest (ni k, bo isu, [zi c], zi t)
   | ["addsub"; k; l; cs; fl; t] -> OAddSubkey (ni k, zi l, bo cs, zi fl, zi t)
+  | ["adopt"; k; j; t] -> OAdoptKey (ni k, ni j, zi t)
   | ["revsub"; k; l; t] -> ORevokeSubkey (ni k, zi l, zi t)
   | ["revkey"; k; t] -> ORevokeKey (ni k, zi t)
   | ["revoker"; k; b; t] -> OAddRevoker (ni k, ni b, zi t)
@@ -58,7 +59,7 @@ let () = run_table [
   "state_old", (fun _ -> old_rule := true; let r = (try world_s !w with e -> old_rule := false; raise e) in old_rule := false; r);
   "old", (fun args -> w := apply_prefix !w (op_of args); world_s !w);
   "create", (fun a -> step ("create" :: a)); "adduid", (fun a -> step ("adduid" :: a)); "recert", (fun a -> step ("recert" :: a));
-  "certify", (fun a -> step ("certify" :: a)); "certkey", (fun a -> step ("certkey" :: a)); "revuid", (fun a -> step ("revuid" :: a)); "attest", (fun a -> step ("attest" :: a)); "addsub", (fun a -> step ("addsub" :: a));
+  "certify", (fun a -> step ("certify" :: a)); "certkey", (fun a -> step ("certkey" :: a)); "revuid", (fun a -> step ("revuid" :: a)); "attest", (fun a -> step ("attest" :: a)); "addsub", (fun a -> step ("addsub" :: a)); "adopt", (fun a -> step ("adopt" :: a));
   "revsub", (fun a -> step ("revsub" :: a)); "revkey", (fun a -> step ("revkey" :: a)); "revoker", (fun a -> step ("revoker" :: a));
   "deluid", (fun a -> step ("deluid" :: a)); "protect", (fun a -> step ("protect" :: a)); "unlock", (fun a -> step ("unlock" :: a));
   "lock", (fun a -> step ("lock" :: a)); "copy", (fun a -> step ("copy" :: a)); "reimport", (fun a -> step ("reimport" :: a));
